@@ -54,7 +54,7 @@ func iterMeaning(n int, c [][3]int) string {
 	return "v " + strings.Join(vs, "")
 }
 
-func iterateCheck(r *hlib.Run, tc *toolchain) {
+func iterateCheck(r *rec, tc *toolchain) {
 	var src strings.Builder
 	src.WriteString("pub struct it?(\n    cnt : base.u32,\n    log : array[64] base.u8,\n    tag : array[64] base.u8,\n)\n\n")
 	for k, c := range iterChains {
@@ -149,7 +149,7 @@ func iterateCheck(r *hlib.Run, tc *toolchain) {
 // under a watchdog (the unrepaired cgen wrote a C `continue` that skips the
 // chunk-pointer advance: the call never returns) and its visit log is compared
 // with the expected one (fixes/C04-iterate-jump.patch).
-func iterateJumpCheck(r *hlib.Run, tc *toolchain) {
+func iterateJumpCheck(r *rec, tc *toolchain) {
 	type jp struct {
 		name, body string
 		want       func(n int) []int // logged bytes for the source 0,1,…,n-1
